@@ -15,7 +15,7 @@ def _n_at_least(line, key, k):
 
 PROPS = {
     "C09": {
-        "lean_props": ["ZarrsModel.Props.C09"],
+        "lean_props": ["ZarrsModel.Props.C09", "ZarrsModel.Props.C09Api"],
         "harness": "c09",
         "rule": "exhaustive enumeration of array shapes (rank 0..3, extents 0..3; thorough: rank 4 extents 0..2) x every in-bounds "
                 "subset x {indices, linearised, contiguous, contiguous-linearised, byte ranges, extract, chunks, rayon split trees, "
@@ -30,7 +30,7 @@ PROPS = {
                         "rayon's bridge is exercised only through Producer::split_at/into_iter (the public plumbing API)"],
     },
     "C10": {
-        "lean_props": ["ZarrsModel.Props.C10"],
+        "lean_props": ["ZarrsModel.Props.C10", "ZarrsModel.Props.C10Api"],
         "harness": "c10",
         "rule": "exhaustive 1-D enumeration: every dimension kind (fixed 1..3; every composition of totals 0..6 as a varying size list) x array "
                 "extents 0..7 x every element 0..a+1, chunk index 0..count+1, in-bounds region and box of chunks, each queried on the grid as built "
@@ -121,7 +121,7 @@ PROPS = {
         "assumptions": ["node paths and keys are ASCII in the generated cases"],
     },
     "C08": {
-        "lean_props": ["ZarrsModel.Props.C08", "ZarrsModel.Props.C08Fs"],
+        "lean_props": ["ZarrsModel.Props.C08", "ZarrsModel.Props.C08Fs", "ZarrsModel.Props.C08Async"],
         "harness": "c08",
         "rule": "random operation sequences (4..30 ops; thorough: up to 200) over a hierarchy-shaped universe of 12 keys / 9 prefixes with values of 0..12 bytes and "
                 "in- and out-of-bounds ranges of all three forms, on 11 stores: memory, filesystem (with and without direct I/O, on disk under /verif/work), "
